@@ -1719,9 +1719,91 @@ def run_faultenum(spec):
     return {"digest": dg.hex(), "nontrivial": stats["fault_points_enumerated"] > 0, "violations": viol, "stats": dict(stats), "sample": {"kind": "faultenum", "seq": FAULTENUM_SEQS[spec["seq"]], "k": [spec["k0"], spec["k1"]]}, "tuples": []}
 
 
+GEN_FAULTENUM = [
+    # (history kind, generator parameters seed, which op fails)
+    ("nldfgen", 101, "feat"),
+    ("nldfgen", 102, "pot"),
+    ("sdmxgen", 103, "featvxc"),
+    ("plan", 104, "rho"),
+    ("plan", 105, "vxc"),
+    ("nldfgen", 106, "feat"),
+    ("sdmxgen", 107, "featvxc"),
+]
+
+
+def gen_faultenum_history(kind, pseed, target, k):
+    """generator / plan level: an ordinary call, then the target call failing at its k-th
+    shallow line, then the same call again and whatever consumes its state"""
+    from cidersim.workloads import omp_workloads as W
+
+    rng = Rng(derive("c09-gen-faultenum", kind, pseed))
+    f = {"fault": k, "fault_shallow": 3}
+    if kind == "nldfgen":
+        p = W.draw_nldf_params(rng)
+        p["nspin"] = 2
+        p["interp"] = rng.choice(["onsite_direct", "onsite_spline"])
+        p["mol"] = "H2"
+        feat = {"op": "feat", "spin": 0, "rho": 0, "alias": None, "mode": "plain", "obj": 0}
+        pot = {"op": "pot", "spin": 0, "v": 0, "alias": None, "obj": 0}
+        if target == "feat":
+            ops = [feat, pot, dict(feat, rho=1, **f), dict(feat, rho=1), dict(pot, v=1)]
+        else:
+            ops = [feat, dict(pot, **f), pot, dict(feat, spin=1, rho=1), dict(pot, spin=1, v=1), dict(pot, v=2)]
+        return {"kind": "nldfgen", "params": p, "ops": ops, "nobj": 1, "perturb": 0xA5}
+    if kind == "sdmxgen":
+        p = W.draw_sdmx_params(rng)
+        p["mol"] = "H2"
+        op = {"op": "featvxc", "ngrids": 57, "cseed": 1, "nset": 1, "dm": 0, "save_buf": True, "vxc_twice": False}
+        ops = [op, dict(op, ngrids=112, dm=1, **f), dict(op, ngrids=112, dm=1), dict(op, ngrids=16, dm=2, vxc_twice=True)]
+        return {"kind": "sdmxgen", "params": p, "ops": ops, "perturb": 0xA5}
+    p = W.draw_plan_params(rng)
+    p["nspin"] = 2
+    p["smooth"] = False
+    p["n"] = 33
+    rho = {"op": "rho", "spin": 0, "f": 0, "rho": 0, "cache_p": True, "obj": 0}
+    vxc = {"op": "vxc", "spin": 0, "v": 0, "obj": 0}
+    if target == "rho":
+        ops = [rho, vxc, dict(rho, f=1, rho=1, **f), dict(rho, f=1, rho=1), dict(vxc, v=1)]
+    else:
+        ops = [rho, dict(vxc, **f), vxc, dict(rho, spin=1, f=1, rho=1), dict(vxc, spin=1, v=1)]
+    return {"kind": "plan", "params": p, "ops": ops, "nobj": 1, "perturb": 0xA5}
+
+
+def run_gen_faultenum(spec):
+    kind, pseed, target = GEN_FAULTENUM[spec["seq"]]
+    viol, stats, dg = [], Counter(), Digest()
+    seen = set()
+    for k in range(spec["k0"], spec["k1"]):
+        hist = gen_faultenum_history(kind, pseed, target, k)
+        hist["scribble"] = False
+        hist["near_dup"] = False
+        rp = {"property": PROP, "engine": "histsim", "case": {"hist": hist}}
+        try:
+            v, st_, d_ = EXEC[hist["kind"]](hist, rp)
+        finally:
+            set_perturb(0)
+        fop = [o for o in hist["ops"] if o.get("fault")][0]
+        if not fop.get("fault_site"):
+            stats["fault_points_beyond_end_of_call"] += 1
+            break
+        stats["fault_points_enumerated"] += 1
+        stats["comparisons"] += st_["comparisons"]
+        stats["reference_calls"] += st_["reference_calls"]
+        dg.add(k, fop["fault_site"][0])
+        for x in v:
+            if x["key"] not in seen:
+                seen.add(x["key"])
+                x["detail"] = "fault point %d of %s.%s (%s line %d): %s" % (k, kind, target, fop["fault_site"][0], fop["fault_site"][1], x["detail"])
+                viol.append(x)
+    stats["hist_faultenum"] += 1
+    return {"digest": dg.hex(), "nontrivial": stats["fault_points_enumerated"] > 0, "violations": viol, "stats": dict(stats), "sample": {"kind": "faultenum", "seq": list(GEN_FAULTENUM[spec["seq"]]), "k": [spec["k0"], spec["k1"]]}, "tuples": []}
+
+
 def run_case(spec):
     if spec.get("hkind") == "faultenum":
         return run_faultenum(spec)
+    if spec.get("hkind") == "gen_faultenum":
+        return run_gen_faultenum(spec)
     hist = spec.get("hist") or gen_history(spec["hkind"], spec["seed"])
     rp = {"property": PROP, "engine": "histsim", "case": {"hist": hist, "hkind": spec.get("hkind"), "seed": spec.get("seed"), "proc_ref": bool(spec.get("proc_ref"))}}
     try:
@@ -1800,6 +1882,10 @@ def plan(tier, seed, args):
         for q in range(nseq):
             for k0 in range(1, npts + 1, chunk):
                 fe.append({"hkind": "faultenum", "seq": q, "k0": k0, "k1": min(k0 + chunk, npts + 1)})
+        nseq2, npts2, chunk2 = (5, 60, 12) if tier == "quick" else (len(GEN_FAULTENUM), 600, 30)
+        for q in range(nseq2):
+            for k0 in range(1, npts2 + 1, chunk2):
+                fe.append({"hkind": "gen_faultenum", "seq": q, "k0": k0, "k1": min(k0 + chunk2, npts2 + 1)})
         cases = fe + cases  # the slow ones first
     return cases
 
